@@ -213,8 +213,20 @@ func (r *rd) bytes(n int) []byte {
 	r.p += n
 	return v
 }
-func (r *rd) s16() string { n := int(int16(r.u16())); if n <= 0 { return "" }; return string(r.bytes(n)) }
-func (r *rd) s32() []byte { n := int(int32(r.u32())); if n <= 0 { return nil }; return append([]byte(nil), r.bytes(n)...) }
+func (r *rd) s16() string {
+	n := int(int16(r.u16()))
+	if n <= 0 {
+		return ""
+	}
+	return string(r.bytes(n))
+}
+func (r *rd) s32() []byte {
+	n := int(int32(r.u32()))
+	if n <= 0 {
+		return nil
+	}
+	return append([]byte(nil), r.bytes(n)...)
+}
 
 type wr struct{ b []byte }
 
